@@ -376,8 +376,9 @@ theorem kinv_stepTask {s s' : St} {i p : Nat} {t : Task} (h1 : OnePlace s) (hk :
     split at hstep
     · simp at hstep
     · split at hstep
-      · simp only [Option.some.injEq] at hstep; subst hstep
-        exact kinv_miss k h1 hk ht
+      · split at hstep <;> (simp only [Option.some.injEq] at hstep; subst hstep)
+        · exact KInv_of hk rfl rfl rfl rfl (fun _ _ h => h) hk.buf (Or.inl rfl) trivial (Or.inl rfl)
+        · exact kinv_miss k h1 hk ht
       · rename_i h hl
         split at hstep
         · simp only [Option.some.injEq] at hstep; subst hstep
@@ -406,8 +407,9 @@ theorem kinv_stepTask {s s' : St} {i p : Nat} {t : Task} (h1 : OnePlace s) (hk :
         (bufOK_set hk.buf hch (by rfl) (fun c hc => Or.inl (by rw [hbuf]; exact List.mem_cons_of_mem _ hc)))
         (Or.inr ⟨c0, ?_⟩) trivial (Or.inl rfl)
       simp only [spawnCloser, set_self ht]
-    · simp only [Option.some.injEq] at hstep; subst hstep
-      exact KInv_fields (s := miss s i _ k) rfl rfl rfl rfl rfl rfl rfl (kinv_miss k h1 hk ht)
+    · split at hstep <;> (simp only [Option.some.injEq] at hstep; subst hstep)
+      · exact KInv_of hk rfl rfl rfl rfl (fun _ _ h => h) hk.buf (Or.inl rfl) trivial (Or.inl rfl)
+      · exact KInv_fields (s := miss s i _ k) rfl rfl rfl rfl rfl rfl rfl (kinv_miss k h1 hk ht)
     · simp at hstep
     · simp only [Option.some.injEq] at hstep; subst hstep
       exact KInv_of hk rfl rfl rfl rfl (fun _ _ h => h) hk.buf (Or.inl rfl) trivial (Or.inl rfl)
@@ -426,10 +428,12 @@ theorem kinv_stepTask {s s' : St} {i p : Nat} {t : Task} (h1 : OnePlace s) (hk :
         (Or.inl rfl) ⟨chanKey_set hch (by rfl) hpc, ?_⟩ (Or.inl rfl)
       rw [← hkey]
       exact hk.buf h ch hch c0 (by rw [hbuf]; exact List.mem_cons_self)
-    · simp only [Option.some.injEq] at hstep; subst hstep
-      exact kinv_miss k h1 hk ht
-    · simp only [Option.some.injEq] at hstep; subst hstep
-      exact kinv_miss k h1 hk ht
+    · split at hstep <;> (simp only [Option.some.injEq] at hstep; subst hstep)
+      · exact KInv_of hk rfl rfl rfl rfl (fun _ _ h => h) hk.buf (Or.inl rfl) trivial (Or.inl rfl)
+      · exact kinv_miss k h1 hk ht
+    · split at hstep <;> (simp only [Option.some.injEq] at hstep; subst hstep)
+      · exact KInv_of hk rfl rfl rfl rfl (fun _ _ h => h) hk.buf (Or.inl rfl) trivial (Or.inl rfl)
+      · exact kinv_miss k h1 hk ht
     · simp only [Option.some.injEq] at hstep; subst hstep
       exact KInv_of hk rfl rfl rfl rfl (fun _ _ h => h) hk.buf (Or.inl rfl) trivial (Or.inl rfl)
   case gUsable k h c =>
@@ -581,6 +585,9 @@ theorem kinv_step {s s' : St} {w : Who} (hinv : Inv s) (hk : KInv s) (hstep : st
     · simp only [Option.some.injEq] at hstep; subst hstep
       exact KInv_fields (s := s) rfl rfl rfl rfl rfl rfl rfl hk
     · simp at hstep
+  | cancel i =>
+    simp only [step, Option.some.injEq] at hstep; subst hstep
+    exact KInv_fields (s := s) rfl rfl rfl rfl rfl rfl rfl hk
 
 theorem kinv_run {s : St} (ws : List Who) (hinv : Inv s) (hk : KInv s) : KInv (run s ws) := by
   induction ws generalizing s with
